@@ -75,7 +75,7 @@ pub fn io_snapshot(m: &Machine) -> IoHint {
 
 pub fn ref_from_setup(s: &Setup) -> Ref {
     let mut rf = Ref::power_on();
-    rf.load(&s.image.bytes, s.image.stack, s.image.limit);
+    rf.load_image(&s.image.bytes, s.image.stack, s.image.limit, s.image.keep_limit);
     for (a, v) in &s.pokes {
         if *a < 0xF0 {
             rf.ram[*a as usize] = *v;
@@ -633,7 +633,7 @@ impl LockStep {
                 match s {
                     Stim::CpuReset => self.rf.cpu_reset(),
                     Stim::MasterReset => self.rf.master_reset(),
-                    Stim::Load(img) => self.rf.load(&img.bytes, img.stack, img.limit),
+                    Stim::Load(img) => self.rf.load_image(&img.bytes, img.stack, img.limit, img.keep_limit),
                     _ => unreachable!(),
                 }
                 self.presses.clear();
